@@ -187,6 +187,10 @@ pub struct VCfg {
     pub stdin_chunks: Option<Vec<Vec<u8>>>,
     /// fault injection: the k-th process creation by the shell fails (EAGAIN)
     pub fail_spawn: Option<usize>,
+    /// when nothing is runnable and no timer is pending, call `on_step` (up to 64 times, with an
+    /// increasing step number) before the run is declared deadlocked: lets an outside actor
+    /// (e.g. a SIGCONT for a stopped child) act while the shell is blocked
+    pub tick_on_stall: bool,
 }
 
 impl VCfg {
@@ -212,6 +216,7 @@ impl VCfg {
             extra: Vec::new(),
             setup: None,
             on_step: None,
+            tick_on_stall: false,
             keep_state: false,
             stdin_chunks: None,
             fail_spawn: None,
@@ -426,8 +431,9 @@ fn run_v_inner(mut cfg: VCfg) -> VOut {
 
     let mut end = End::Done;
     let mut main_done_at: Option<u64> = None;
+    let mut stall_ticks = 0u64;
     loop {
-        let steps = sched.inner.borrow().steps;
+        let steps = sched.inner.borrow().steps + stall_ticks;
         if sched.is_done(main_id) && main_done_at.is_none() {
             main_done_at = Some(steps);
             if !cfg.drain {
@@ -453,6 +459,13 @@ fn run_v_inner(mut cfg: VCfg) -> VOut {
                     continue;
                 }
                 drop(st);
+                if cfg.tick_on_stall && stall_ticks < 64 && main_done_at.is_none() {
+                    if let Some(f) = cfg.on_step.as_mut() {
+                        stall_ticks += 1;
+                        f(&state, steps + 1);
+                        continue;
+                    }
+                }
                 if main_done_at.is_none() {
                     end = End::Deadlock;
                 }
@@ -1020,23 +1033,20 @@ fn sig_main(
     args: Vec<Field>,
 ) -> Pin<Box<dyn Future<Output = yash_env::builtin::Result> + '_>> {
     use yash_env::system::{GetPid as _, Signals as _};
+    use yash_env::system::SendSignal as _;
     let st = status_of(env);
-    if let Some(name) = args.first() {
-        if let Ok(name) = name.value.parse::<yash_env::signal::Name>() {
-            if let Some(num) = env.system.signal_number_from_name(name) {
-                let pid = env.system.getpid();
-                VSTATE.with(|s| {
-                    if let Some(state) = s.borrow().as_ref() {
-                        let mut stt = state.borrow_mut();
-                        if let Some(p) = stt.processes.get_mut(&pid) {
-                            let _ = p.raise_signal(num);
-                        }
-                    }
-                });
-            }
+    let num = args
+        .first()
+        .and_then(|n| n.value.parse::<yash_env::signal::Name>().ok())
+        .and_then(|n| env.system.signal_number_from_name(n));
+    // the process signals itself through the kernel interface: the parent is notified of a stop
+    // and the process does not run on until it is continued
+    Box::pin(async move {
+        if let Some(num) = num {
+            let _ = env.system.raise(num).await;
         }
-    }
-    Box::pin(std::future::ready(yash_env::builtin::Result::new(ExitStatus(st))))
+        yash_env::builtin::Result::new(ExitStatus(st))
+    })
 }
 
 pub fn generic_probes<S>() -> ExtraBuiltins<S>
